@@ -122,6 +122,15 @@ def loop_handler(ip, s, fr: Frame, it):
     if k is None:
         raise Unsupported(f"loop at line {s.lineno} is outside the function under contract")
     inv = c.loops.get(k) if c is not None else None
+
+    def accepts(i_):
+        return header_of(s) in ((i_.header,) if isinstance(i_.header, str) else tuple(i_.header))
+
+    if c is not None and (inv is None or not accepts(inv)) and not isinstance(k, str):
+        # a loop was added or removed in front of this one: the sidecar's invariant is found by its header when that is unambiguous
+        same = [(kk, i_) for kk, i_ in c.loops.items() if not isinstance(kk, str) and accepts(i_)]
+        if len(same) == 1:
+            k, inv = same[0]
     if inv is None:
         raise Unsupported(f"loop #{k} ({header_of(s)}) at line {s.lineno} needs an invariant in the sidecar")
     accepted = (inv.header,) if isinstance(inv.header, str) else tuple(inv.header)
